@@ -334,7 +334,7 @@ def check(ctx, case):
 
 def shard_main(ctx):
     from hypothesis import given
-    n = {"quick": 500, "thorough": 15000}[ctx.tier]
+    n = {"quick": 1600, "thorough": 30000}[ctx.tier]
 
     @given(histories())
     def test(case):
